@@ -65,8 +65,20 @@ def to_np(M):
     """numeric sympy Matrix -> complex ndarray (own conversion)"""
     if isinstance(M, np.ndarray):
         return M.astype(complex)
+
+    def num(e):
+        # numbers as they are; an UNEVALUATED exact entry (exp(I*r) at a rational r of 1e12, sqrt(2)/2, cos(1/3)) is
+        # evaluated at 30 digits before it is rounded to a double: sympy's default 15-digit evalf reduces a large
+        # exact argument too coarsely (exp(I*p/q) near 5e11 comes out 3.7e-9 off, while 20 digits and more agree with
+        # mpmath) - that would be this conversion's error, not the library's (thorough-tier false alarm, DESIGN 9.19)
+        if isinstance(e, (int, float, complex)):
+            return complex(e)
+        if getattr(e, "is_Number", False):
+            return complex(e)
+        return complex(sympy.N(e, 30))
+
     try:
-        return np.array(M.tolist(), dtype=complex)
+        return np.array([[num(e) for e in row] for row in M.tolist()], dtype=complex)
     except (TypeError, ValueError):
         return np.array([[complex(sympy.N(e)) for e in row] for row in M.tolist()], dtype=complex)
 
